@@ -359,7 +359,8 @@ fn iofault_case(run_seed: u64, tier: Tier) -> Case {
     }
     ops.push(Op::CheckAll);
     plan.ops = ops;
-    if rng.fork("boundary").chance(1, 8) {
+    let boundary = rng.fork("boundary").chance(1, 8);
+    if boundary {
         crate::gen::boundary_prefix(&mut rng.fork("boundary-shape"), &mut plan);
     }
     // 40% of the plans end with 2-3 concurrent writers on disjoint key sets (group commits under
@@ -399,7 +400,9 @@ fn iofault_case(run_seed: u64, tier: Tier) -> Case {
     let q = if plan.clients.is_empty() { *srng.pick(&[1000u32, 990, 900]) } else { *srng.pick(&[900u32, 700, 500]) };
     let sched = SchedSpec { strategy: Strategy::Sticky { q_permille: q }, seed: srng.next_u64() };
     let mut params = BTreeMap::new();
-    params.insert("max_points".to_string(), if tier == Tier::Quick { 30 } else { 100_000 });
+    // boundary plans are about a handful of specific calls (the length query, the padding write, the
+    // fragment headers): enumerate nearly all of their positions also in the quick tier
+    params.insert("max_points".to_string(), if tier == Tier::Quick { if boundary { 160 } else { 30 } } else { 100_000 });
     Case { engine: Engine::IoFault, run_seed, plan, sched, schedule: None, fault: None, params, image: None, max_steps: Some(3_000_000), log_plan: None, lock_plan: None, corrupt: None }
 }
 
@@ -674,7 +677,7 @@ fn mixed(mut spec: CheckSpec, variants: Vec<(u32, Variant)>) -> CheckSpec {
                         // C09 under transient faults ("as long as the filesystem makes progress"):
                         // hangs and background panics after a fault that is over keep their C09 tag
                         let mut c = iofault_case(rs, tier);
-                        c.params.insert("max_points".to_string(), if tier == Tier::Quick { 10 } else { 200 });
+                        c.params.insert("max_points".to_string(), if tier == Tier::Quick { 10 } else { 24 });
                         c
                     }
                     Variant::Crash => {
